@@ -4,7 +4,7 @@
     compute_contact_force; order_points' permutation and the barycentric transforms X are inputs). *)
 From Coq Require Import ZArith QArith Reals Lra List Bool PrimFloat.
 From D3 Require Import Base.Ops Base.Vec Base.RVec Spec.Convex Checker.Poly Model.AabbTree Model.Hydro
-     Proofs.HydroPlane Proofs.HydroHalfplanes Proofs.HydroPair Proofs.HydroForce.
+     Proofs.HydroPlane Proofs.HydroHalfplanes Proofs.HydroPair Proofs.HydroForce Proofs.HydroParallel Proofs.HydroOrder.
 Import ListNotations.
 Local Close Scope Q_scope.
 
@@ -52,6 +52,12 @@ Proof. exact @halfplanes_compact. Qed.
 Theorem C15_intersect_halfplanes_sound : forall (F : Type) (O : Ops F) (hs : list (HP F)) (pts : list (V2 F)),
   intersect_halfplanes hs = Ok pts -> Forall (is_vertex hs) pts /\ (length pts < 3 * length hs)%nat.
 Proof. exact @intersect_halfplanes_sound. Qed.
+
+(** ... and every such intersection is returned: no vertex of the arrangement is lost (in the
+    exact model; binary64 loses some, known finding F26) *)
+Theorem C15_intersect_halfplanes_complete : forall (F : Type) (O : Ops F) (hs : list (HP F)) (pts : list (V2 F)),
+  intersect_halfplanes hs = Ok pts -> forall p, is_vertex hs p -> In p pts.
+Proof. exact @intersect_halfplanes_complete. Qed.
 
 (** every 3-D vertex of the contact polygon is the lift of such an arrangement vertex of the
     valid rows of X1 ++ X2 (ordering and de-duplication only select among them) *)
@@ -124,6 +130,36 @@ Theorem C15_polygon_vertices_on_plane_in_faces_partial :
     forall Xi h, In Xi (m4rows X1 ++ m4rows X2) -> hp_row x y pp Xi = Some h -> (- EPSILON <= bary_row Xi v)%R.
 Proof. exact polygon_vertices_on_plane_in_faces. Qed.
 
+(** faces exactly parallel to the contact plane (dropped by make_halfplanes): if X is the barycentric
+    transform of the tetrahedron and the tetrahedron crosses the plane strictly on both sides (the
+    pre-check), the whole plane lies strictly inside that face.  Still missing for the full "inside
+    both tetrahedra": faces whose projected normal has norm in (0, EPSILON]. *)
+Theorem C15_parallel_face_positive : forall (t : @tetra R) (X : @M4 R) (n x y : V3 R) (d : R),
+  dot n n = 1%R -> cross x y = n -> is_bary X t ->
+  (let '(p0, p1, p2, p3) := plane_distances t n d in (min4 p0 p1 p2 p3 < 0 /\ 0 < max4 p0 p1 p2 p3)%R) ->
+  forall Xi, In Xi (m4rows X) -> dot (xyz Xi) x = 0%R -> dot (xyz Xi) y = 0%R ->
+  forall p, dot n p = d -> (0 < bary_row Xi p)%R.
+Proof. exact parallel_face_positive. Qed.
+
+Example C15_parallel_face_nonvacuous :
+  let t : @tetra R := (V 0 0 0, V 1 0 0, V 0 1 0, V 0 0 1)%R in
+  let X : @M4 R := (mkV4 (-1) (-1) (-1) 1, mkV4 1 0 0 0, mkV4 0 1 0 0, mkV4 0 0 1 0)%R in
+  is_bary X t /\ cross (V 1 0 0)%R (V 0 1 0)%R = (V 0 0 1)%R /\
+  (let '(p0, p1, p2, p3) := plane_distances t (V 0 0 1)%R (1 / 2)%R in (min4 p0 p1 p2 p3 < 0 /\ 0 < max4 p0 p1 p2 p3)%R) /\
+  dot (xyz (mkV4 0 0 1 0)%R) (V 1 0 0)%R = 0%R /\ dot (xyz (mkV4 0 0 1 0)%R) (V 0 1 0)%R = 0%R.
+Proof.
+  cbv zeta. split; [|split; [|split; [|split]]].
+  - unfold is_bary, aff, xyz, dot. cbn [c0 c1 c2 c3 vx vy vz add mul ROps]. repeat split; lra.
+  - unfold cross. cbn [vx vy vz sub mul ROps]. f_equal; lra.
+  - unfold plane_distances, dot. cbn [vx vy vz add sub mul ROps].
+    split.
+    + eapply Rle_lt_trans; [unfold min4; eapply Rle_trans; [apply fmin_le_l|eapply Rle_trans; [apply fmin_le_l|apply fmin_le_l]]|lra].
+    + unfold max4. unfold fmax at 1. destruct (_ <? _)%o eqn:E; [lra|].
+      apply Rltb_false in E. lra.
+  - unfold xyz, dot. cbn [c0 c1 c2 vx vy vz add mul ROps]. lra.
+  - unfold xyz, dot. cbn [c0 c1 c2 vx vy vz add mul ROps]. lra.
+Qed.
+
 (** what a reported intersection means, and when none is reported *)
 Theorem C15_intersection_true_vertices :
   forall (t1 t2 : @tetra R) (e1 e2 : V4 R) (X1 X2 : @M4 R) (E1 E2 : R) (perm : list nat) (pl : V4 R) (poly : list (V3 R)),
@@ -154,6 +190,36 @@ Theorem C15_non_overlapping_false_partial :
   forall r, intersect_tetrahedron_pair t1 e1 X1 t2 e2 X2 E1 E2 perm = Ok r -> fst (fst r) = false.
 Proof. exact non_overlapping_false_partial. Qed.
 
+(** ** order independence (exact model).  The 3-D vertices of the arrangement are characterised
+    without the 2-D basis: v is one iff it lies on the plane, on two valid faces whose lines are not
+    nearly parallel, and violates no valid face by more than EPSILON ... *)
+Theorem C15_arrangement_vertex_iff : forall (x y n : V3 R), frame x y n -> forall (d : R) (rows : list (V4 R)) (v : V3 R),
+  let pp := vmap (fun c => (c * d)%o) n in
+  (exists q, is_vertex (valid_rows x y pp rows) q /\ v = project_point x y pp q) <-> vertex3 rows n d v.
+Proof. intros x y n Fr d rows v. exact (arrangement_vertex_iff x y n Fr d rows v). Qed.
+(** ... hence (X1, X2, n, d) and the swapped call (X2, X1, -n, -d), each with the basis the code
+    derives from its own normal, produce the same set of 3-D vertices; and the swapped call does
+    compute the negated plane.  (The subsequent angular ordering / de-duplication select among
+    these vertices; their effect is judged per input by poly_cert and the vertex-set comparison.) *)
+Theorem C15_arrangement_vertices_order_independent : forall (X1 X2 : @M4 R) (n : V3 R) (d : R) (v : V3 R),
+  dot n n = 1%R ->
+  let '(x, y) := plane_basis_from_normal n in
+  let '(x', y') := plane_basis_from_normal (vneg n) in
+  let pp := vmap (fun c => (c * d)%o) n in
+  let pp' := vmap (fun c => (c * - d)%o) (vneg n) in
+  (exists q, is_vertex (valid_rows x y pp (m4rows X1 ++ m4rows X2)) q /\ v = project_point x y pp q) <->
+  (exists q, is_vertex (valid_rows x' y' pp' (m4rows X2 ++ m4rows X1)) q /\ v = project_point x' y' pp' q).
+Proof. exact arrangement_vertices_order_independent. Qed.
+Theorem C15_contact_plane_swap : forall (X1 X2 : @M4 R) (e1 e2 : V4 R) (E1 E2 : R) (pl : V4 R),
+  contact_plane X1 X2 e1 e2 E1 E2 = (pl, false) ->
+  contact_plane X2 X1 e2 e1 E2 E1 = (mkV4 (- c0 pl) (- c1 pl) (- c2 pl) (- c3 pl), false)%R.
+Proof. exact contact_plane_swap. Qed.
+Example C15_order_independent_nonvacuous : dot (V 0 0 1)%R (V 0 0 1)%R = 1%R /\ frame (V 1 0 0)%R (V 0 1 0)%R (V 0 0 1)%R.
+Proof.
+  split; [unfold dot; cbn [vx vy vz add mul ROps]; lra|].
+  constructor; unfold dot, cross; cbn [vx vy vz add sub mul ROps]; try lra. f_equal; lra.
+Qed.
+
 (** force parallel to the normal; pressure >= 0 when the polygon lies in tetrahedron 1 *)
 Theorem C15_force_parallel_normal : forall (t : @tetra R) (e plane : V4 R) (poly : list (V3 R)) (E : R),
   let '(_, f, _) := compute_contact_force t e plane poly E in cross f (xyz plane) = vzero.
@@ -182,8 +248,10 @@ Print Assumptions C15_poly_cert_nonvacuous.
 Print Assumptions C15_sep_cert_nonvacuous.
 Print Assumptions C15_halfplanes_compact.
 Print Assumptions C15_intersect_halfplanes_sound.
+Print Assumptions C15_intersect_halfplanes_complete.
 Print Assumptions C15_polygon_vertices_from_arrangement.
-Print Assumptions C15_model_nonvacuous.
+Print Assumptions C15_parallel_face_positive.
+Print Assumptions C15_parallel_face_nonvacuous.
 Print Assumptions C15_contact_plane_unit.
 Print Assumptions C15_contact_plane_equal_pressure.
 Print Assumptions C15_contact_plane_same_iff.
@@ -193,6 +261,10 @@ Print Assumptions C15_polygon_vertices_on_plane_in_faces_partial.
 Print Assumptions C15_intersection_true_vertices.
 Print Assumptions C15_one_sided_rejects.
 Print Assumptions C15_non_overlapping_false_partial.
+Print Assumptions C15_arrangement_vertex_iff.
+Print Assumptions C15_arrangement_vertices_order_independent.
+Print Assumptions C15_contact_plane_swap.
+Print Assumptions C15_order_independent_nonvacuous.
 Print Assumptions C15_force_parallel_normal.
 Print Assumptions C15_pressure_nonneg.
 Print Assumptions C15_pressure_nonneg_nonvacuous.
